@@ -70,6 +70,14 @@ ONE = {
     "GT1(S)": lambda P, q: ops.GaussianTransform(S1),
     "GT1(S^-1)": lambda P, q: ops.GaussianTransform(np.linalg.inv(S1)),
     "G1(V)": lambda P, q: ops.Gaussian(VG),
+    # one-mode graph embeddings (a product of adjacency matrices is not the composition of the embeddings)
+    "GE(.7)": lambda P, q: ops.GraphEmbed(np.array([[0.7]])),
+    "GE(.6)": lambda P, q: ops.GraphEmbed(np.array([[0.6]])),
+    "GE(2)": lambda P, q: ops.GraphEmbed(np.array([[2.0]])),
+    "GE(.5)": lambda P, q: ops.GraphEmbed(np.array([[0.5]])),
+    # a channel that is nearly, but not exactly, the identity; a channel with a free transmissivity
+    "Loss(1-4e-6)": lambda P, q: ops.LossChannel(0.999996),
+    "Loss(a)": lambda P, q: ops.LossChannel(P.params("a")),
     "D(a)": lambda P, q: ops.Dgate(P.params("a"), 0.2),
     "D(-a)": lambda P, q: ops.Dgate(-P.params("a"), 0.2),
     "MX": lambda P, q: ops.MeasureHomodyne(0.0),
@@ -159,8 +167,14 @@ def check_case(n, seq, res, compilers=(), do_min=True):
     try:
         ref = opsem.program_map(prog.circuit, n, env=ENV)
     except opsem.Unsupported:
-        res.stats["skipped_no_reference"] += 1
-        return False
+        # operations without a direct reference meaning (graph embeddings): the meaning of their real decomposition
+        # (judged by C02) stands in for it
+        try:
+            ref = opsem.program_map(executed(prog.circuit), n, env=ENV)
+            res.stats["reference_through_decomposition"] += 1
+        except Exception:
+            res.stats["skipped_no_reference"] += 1
+            return False
     before = snapshot(prog)
     nontrivial = False
     variants = [("optimize", lambda: prog.optimize())]
@@ -197,8 +211,11 @@ def check_case(n, seq, res, compilers=(), do_min=True):
         if len(out.circuit) != len(prog.circuit) or any(a.op is not b.op for a, b in zip(out.circuit, prog.circuit)):
             nontrivial = True
         try:
-            got = opsem.program_map(out.circuit, n, env=ENV)
-        except opsem.Unsupported as e:
+            try:
+                got = opsem.program_map(out.circuit, n, env=ENV)
+            except opsem.Unsupported:
+                got = opsem.program_map(executed(out.circuit), n, env=ENV)
+        except (opsem.Unsupported, TypeError) as e:
             _viol(res, n, seq, compilers, do_min, vname, "output-uninterpretable", f"{vname} output of {seq} has no reference meaning: {e}", case)
             continue
         ok, why = base_sem.equal(got, 1e-9)
